@@ -25,15 +25,17 @@ use crate::ast::search::{
 };
 use crate::ast::token_range::WithTokenSpan;
 use crate::ast::{
-    ActualPart, Allocator, AssignmentRightHand, AttributeDesignator, AttributeName,
-    ConcurrentStatement, ConditionalExpression, Conditionals, Designator, DiscreteRange,
-    ElementAssociation, Expression, HasUnitId, IterationScheme, LabeledConcurrentStatement, Name,
-    ProcessStatement, Range, SensitivityList, SequentialStatement, SignalAttribute, UnitId,
-    UnitKey, Waveform, WithRef,
+    ActualPart, Allocator, AssignmentRightHand, AssociationElement, AttributeDesignator,
+    AttributeName, CallOrIndexed, ConcurrentStatement, ConditionalExpression, Conditionals,
+    Designator, DiscreteRange, ElementAssociation, Expression, HasUnitId, IterationScheme,
+    LabeledConcurrentStatement, Mode, Name, ProcessStatement, Range, SensitivityList,
+    SequentialStatement, SignalAttribute, UnitId, UnitKey, Waveform, WithRef,
 };
 use crate::data::{DiagnosticHandler, ErrorCode, Symbol};
+use crate::named_entity::InterfaceMode;
 use crate::{
-    AnyEntKind, Config, Diagnostic, EntityId, HasTokenSpan, SrcPos, TokenAccess, TokenSpan,
+    AnyEntKind, Config, Diagnostic, EntRef, EntityId, HasTokenSpan, Object, SrcPos, TokenAccess,
+    TokenSpan,
 };
 use fnv::FnvHashMap;
 use itertools::Itertools;
@@ -235,6 +237,14 @@ where
     }
 }
 
+/// Returns the object of a named entity that is a formal parameter of a subprogram.
+fn parameter_object<'a>(ent: EntRef<'a>) -> Option<&'a Object<'a>> {
+    match ent.kind() {
+        AnyEntKind::Object(object) if object.is_param() => Some(object),
+        _ => None,
+    }
+}
+
 fn pluralize<'a>(len: usize, singular: &'a str, plural: &'a str) -> &'a str {
     if len > 1 {
         plural
@@ -349,6 +359,110 @@ impl SensitivityListChecker<'_> {
             }
             External(_) => {
                 // TODO: External names aren't analyzed atm
+            }
+        }
+    }
+
+    /// Analyzes the actuals of a procedure call.
+    /// An actual that is associated with a formal of mode `out` is written by the call
+    /// and not read.
+    fn analyze_procedure_call(&mut self, call: &CallOrIndexed, ctx: &dyn TokenAccess) {
+        for (idx, item) in call.parameters.items.iter().enumerate() {
+            match &item.actual.item {
+                ActualPart::Expression(ConditionalExpression::Simple(Expression::Name(name)))
+                    if self.is_out_mode_formal(call, idx, item) =>
+                {
+                    self.analyze_written_name(name, ctx)
+                }
+                ActualPart::Expression(expr) => {
+                    self.analyze_conditional_expression(expr, item.actual.span, ctx)
+                }
+                ActualPart::Open => {}
+            }
+        }
+    }
+
+    /// Returns whether the `idx`-th association element of the procedure call is
+    /// associated with a formal parameter of mode `out`.
+    /// Returns `false` if the called procedure or the formal could not be resolved.
+    fn is_out_mode_formal(
+        &self,
+        call: &CallOrIndexed,
+        idx: usize,
+        elem: &AssociationElement,
+    ) -> bool {
+        let Some(reference) = call.name.item.get_suffix_reference() else {
+            return false;
+        };
+        let AnyEntKind::Overloaded(overloaded) = self.root.get_ent(reference).kind() else {
+            return false;
+        };
+        let formal = match &elem.formal {
+            Some(formal) => self.formal_parameter(&formal.item),
+            None => overloaded
+                .signature()
+                .formals
+                .nth(idx)
+                .and_then(|formal| parameter_object(formal.into_inner())),
+        };
+        formal.is_some_and(|formal| matches!(formal.mode(), Some(InterfaceMode::Simple(Mode::Out))))
+    }
+
+    /// Returns the formal parameter that is denoted by the formal part of a named association.
+    /// The formal may be selected, indexed, sliced or converted.
+    fn formal_parameter(&self, name: &Name) -> Option<&Object<'_>> {
+        match name {
+            Name::Designator(designator) => {
+                parameter_object(self.root.get_ent(designator.reference.get()?))
+            }
+            Name::Selected(prefix, _) | Name::Slice(prefix, _) => {
+                self.formal_parameter(&prefix.item)
+            }
+            Name::CallOrIndexed(coi) => self.formal_parameter(&coi.name.item).or_else(|| {
+                // Type conversion or conversion function, such as `conv(formal) => actual`
+                match coi.parameters.items.as_slice() {
+                    [AssociationElement {
+                        formal: None,
+                        actual:
+                            WithTokenSpan {
+                                item:
+                                    ActualPart::Expression(ConditionalExpression::Simple(
+                                        Expression::Name(name),
+                                    )),
+                                ..
+                            },
+                    }] => self.formal_parameter(name),
+                    _ => None,
+                }
+            }),
+            _ => None,
+        }
+    }
+
+    /// Analyzes a name that is written and not read, such as the actual of an `out` parameter.
+    /// Only the expressions within indexes and slices of such a name are read.
+    fn analyze_written_name(&mut self, name: &Name, ctx: &dyn TokenAccess) {
+        use Name::*;
+        match name {
+            Designator(_) | External(_) => {}
+            Selected(prefix, _) | SelectedAll(prefix) => {
+                self.analyze_written_name(&prefix.item, ctx)
+            }
+            Slice(prefix, range) => {
+                self.analyze_written_name(&prefix.item, ctx);
+                self.analyze_discrete_range(range, ctx);
+            }
+            Attribute(attr) => self.analyze_attribute_name(attr, ctx),
+            CallOrIndexed(coi) => {
+                self.analyze_written_name(&coi.name.item, ctx);
+                for item in &coi.parameters.items {
+                    match &item.actual.item {
+                        ActualPart::Expression(expr) => {
+                            self.analyze_conditional_expression(expr, item.actual.span, ctx)
+                        }
+                        ActualPart::Open => {}
+                    }
+                }
             }
         }
     }
@@ -550,14 +664,7 @@ impl Searcher for SensitivityListChecker<'_> {
                     None => {}
                 },
                 ProcedureCall(call_or_indexed) => {
-                    for item in &call_or_indexed.item.parameters.items {
-                        match &item.actual.item {
-                            ActualPart::Expression(expr) => {
-                                self.analyze_conditional_expression(expr, item.actual.span, ctx)
-                            }
-                            ActualPart::Open => {}
-                        }
-                    }
+                    self.analyze_procedure_call(&call_or_indexed.item, ctx)
                 }
                 Wait(_) | Null | SignalReleaseAssignment(_) => {}
             }
@@ -810,6 +917,98 @@ end architecture;",
         });
         let _ = root.search(&mut searcher);
         assert_eq!(num_of_searches.get(), 1)
+    }
+
+    #[test]
+    fn out_mode_actuals_of_procedure_calls_are_not_read() {
+        let mut builder = LibraryBuilder::new();
+
+        let code = builder.code(
+            "libname",
+            "
+entity ent is
+    port (
+        b0 : in bit;
+        o0 : out bit;
+        io0 : inout bit;
+        vec : out bit_vector(0 to 1);
+        rd : out bit_vector(0 to 1)
+    );
+end entity;
+
+architecture a of ent is
+    signal idx, lo, sel : natural;
+    procedure pr(signal a : in bit; signal o : out bit) is
+    begin
+        o <= a;
+    end procedure;
+    procedure pr2(signal io : inout bit; signal o : out bit_vector) is
+    begin
+    end procedure;
+begin
+    positional : process (b0) is
+    begin
+        pr(b0, o0);
+    end process;
+
+    named : process (b0) is
+    begin
+        pr(o => o0, a => b0);
+    end process;
+
+    superfluous : process (b0, o0) is
+    begin
+        pr(b0, o0);
+    end process;
+
+    indexed : process (b0) is
+    begin
+        pr(b0, vec(idx));
+        pr2(io0, rd(lo to 1));
+        pr(o => vec(sel), a => b0);
+    end process;
+end architecture;",
+        );
+
+        let (root, diagnostics) = builder.get_analyzed_root();
+        check_no_diagnostics(&diagnostics);
+
+        let mut all_diagnostics = Vec::new();
+        let mut searcher = ProcessSearcher::new(|proc, ctx| {
+            all_diagnostics.append(&mut lint_sensitivity_list(&root, ctx, proc));
+        });
+        let _ = root.search(&mut searcher);
+
+        let mut expected_missing_diag = Diagnostic::new(
+            code.s1("indexed : process").s1("process").pos(),
+            "Signals 'idx', 'io0', 'lo', 'sel' are not read in the sensitivity list",
+            ErrorCode::MissingInSensitivityList,
+        );
+        expected_missing_diag.add_related(
+            code.s1("vec(idx)").s1("idx"),
+            "signal 'idx' first read here",
+        );
+        expected_missing_diag
+            .add_related(code.s1("pr2(io0").s1("io0"), "signal 'io0' first read here");
+        expected_missing_diag.add_related(
+            code.s1("rd(lo to 1)").s1("lo"),
+            "signal 'lo' first read here",
+        );
+        expected_missing_diag.add_related(
+            code.s1("vec(sel)").s1("sel"),
+            "signal 'sel' first read here",
+        );
+        check_diagnostics(
+            all_diagnostics,
+            vec![
+                Diagnostic::new(
+                    code.s1("process (b0, o0)").s1("o0"),
+                    "Signal is never read in the process",
+                    ErrorCode::SuperfluousInSensitivityList,
+                ),
+                expected_missing_diag,
+            ],
+        );
     }
 
     #[test]
